@@ -20,11 +20,11 @@ import re
 from vlib import Undecided, edge_cover, read_ndjson, parse_action
 from tlagen import gen_mc
 
-CUSTOMS = ["RFC3339NanoOrig", "RFC1123Z", "Kitchen", "StampMicro", "SpaceNano", "TimeNoNano"]
+CUSTOMS = ["RFC3339NanoOrig", "RFC1123Z", "Kitchen", "StampMicro", "SpaceNano", "TimeNoNano", "RFC1123"]
 BOOL_LISTS = [[], [True], [False], [True, False], [False, True], [False, True, False]]
 LAY_LISTS = [[], [""], ["RFC1123Z"], ["Kitchen"], ["StampMicro"], ["SpaceNano"], ["TimeNoNano"],
              ["RFC3339NanoOrig"], ["Kitchen", "RFC1123Z"], ["RFC1123Z", ""], ["", "Kitchen"],
-             ["", "", "RFC3339NanoOrig"]]
+             ["", "", "RFC3339NanoOrig"], ["RFC1123"]]
 U = lambda a: dict(k="UTC", a=a)
 T = lambda a: dict(k="TF", a=a)
 OPT_LISTS = [[], [U(1)], [U(3)], [T(1)], [T(4)], [U(2), T(3)], [T(4), U(3)], [U(3), U(2)], [T(3), T(4)],
@@ -417,7 +417,7 @@ def run(ctx, replay):
         "whether a fresh child starts from its parent's zone mode / layout is not stated: both are accepted",
         "probe records are issued with WriteThru after switching the logger's format with SetJSONMode/SetColorMode",
     ]
-    return ctx.finish(rule="table: every cell (3 zone modes x 7 layouts x 16 flag sets x 3 formats) replayed with sampled "
+    return ctx.finish(rule="table: every cell (3 zone modes x 8 layouts x 16 flag sets x 3 formats) replayed with sampled "
                            "instants, non-trivial = cells having samples whose text would differ in the other zone and "
                            "under every other layout; machine: every transition of the dumped graph + seeded random "
                            "histories executed, non-trivial = distinct (call, receiver, arguments, flags, loggers) executed",
